@@ -486,8 +486,29 @@ def _finish_fn(d, log, sig, body, src_start, src_end, sha, dropped_attrs, emitte
     if text.count('\x00') != 1:
         raise UnitError(f'{d.qual}: rewrite destroyed the signature/body boundary')
     sig, body = text.split('\x00')
+    if d.opts.get('stripattrs'):
+        # rule D2 inside a body: outer attributes on statements / match arms (`#[cfg(not(wasm_browser))]`) are dropped;
+        # the verified configuration is native + `server`, so the attributed code is kept
+        body2, dropped = strip_attrs(body)
+        bad = [a for a in dropped if 'wasm_browser' in a and 'not(' not in a or 'cfg(test)' in a]
+        if bad:
+            raise LostAnchor(f'{d.qual}: attribute {bad[0]} would drop code in the verified configuration; not handled')
+        if dropped:
+            log.append(dict(rule='D2', fn=d.qual, dropped=dropped))
+        body = body2
     if d.opts.get('letchains'):
         body = unfold_let_chains(body, log, d.qual)
+    if d.opts.get('mutself'):
+        # rule R20: Verus does not support a `mut self` receiver.  Alpha-renaming: the parameter becomes `self`,
+        # the body starts with `let mut this_ = self;` and every `self` token of the body becomes `this_`.
+        if not re.search(r'\bmut\s+self\b', sig):
+            raise LostAnchor(f'{d.qual}: rule R20 expects a `mut self` receiver')
+        sig = re.sub(r'\bmut\s+self\b', 'self', sig, count=1)
+        toks = rustlex.lex(body)
+        body = ''.join(('this_' if (t.kind == 'ident' and t.text == 'self') else t.text) for t in toks)
+        o = body.index('{')
+        body = body[:o + 1] + ' let mut this_ = self; ' + body[o + 1:]
+        log.append(dict(rule='R20', fn=d.qual, what='`mut self` receiver alpha-renamed to a local `this_`'))
     if d.opts.get('ret'):
         sig = name_return(sig, d.opts['ret'])
     # loops (offsets in body)
@@ -503,6 +524,9 @@ def _finish_fn(d, log, sig, body, src_start, src_end, sha, dropped_attrs, emitte
             inserts.append((offs[k - 1], '\n' + '\n'.join(lines) + '\n'))
     # line inserts
     for (where, k, pattern, lines) in d.ins:
+        if where == 'atend':
+            inserts.append((body.rindex('}'), '\n'.join(lines) + '\n'))
+            continue
         pos = -1
         start = 0
         for _ in range(k):
@@ -721,6 +745,10 @@ def generate(unit_path, extra_tail=None):
                     mode = ('attr', None)
                 elif w2[0] == 'tail':
                     d.arm_tail = s2[len('//@tail'):].strip()
+                elif w2[0] == 'atend':
+                    cur = dict(where='atend', k=1, **{'from': []}, lines=[])
+                    d.ins.append(cur)
+                    mode = ('ins', None)
                 elif w2[0] == 'ins':
                     cur = dict(where=w2[1], k=int(w2[2]), **{'from': []}, lines=[])
                     d.ins.append(cur)
